@@ -46,12 +46,16 @@ def confirm(sid, src, checks):
     has_demo = os.path.exists(demo)
     feat = "--features memmap" if "memmap" in meta.get("demo_cmd", "") else ""
     demo_cmd = "cargo test --offline -p rarena-allocator %s --test seed_demo 2>&1 | tail -40" % feat
+    if "miri" in meta.get("demo_cmd", ""):
+        # the demonstration needs a happens-before judge: run it under Miri (a few seeds)
+        demo_cmd = ("for s in 0 1 2; do MIRIFLAGS=-Zmiri-seed=$s cargo +nightly miri test --offline -p rarena-allocator %s --test seed_demo 2>&1 "
+                    "| grep -E 'test result|Data race|Undefined Behavior|FAILED|panicked' ; done | tail -40" % feat)
     try:
         if has_demo:
             os.makedirs(os.path.join(wt, "rarena-allocator", "tests"), exist_ok=True)
             shutil.copy(demo, os.path.join(wt, "rarena-allocator", "tests", "seed_demo.rs"))
             rc, out = sh(demo_cmd, cwd=wt)
-            res["demo_without_change"] = "pass" if "test result: ok" in out and "FAILED" not in out else "FAIL"
+            res["demo_without_change"] = "pass" if "test result: ok" in out and "FAILED" not in out and "Data race" not in out and "Undefined Behavior" not in out else "FAIL"
             res["demo_without_tail"] = out[-300:]
         rc, out = sh("git apply %s" % os.path.join(src, "patch.diff"), cwd=wt)
         res["patch_applies"] = rc == 0
@@ -66,7 +70,7 @@ def confirm(sid, src, checks):
         if has_demo:
             os.rename(os.path.join(wt, "seed_demo.rs.off"), os.path.join(wt, "rarena-allocator", "tests", "seed_demo.rs"))
             rc, out = sh(demo_cmd, cwd=wt)
-            res["demo_with_change"] = "FAIL" if "FAILED" in out or "panicked" in out else "pass"
+            res["demo_with_change"] = "FAIL" if "FAILED" in out or "panicked" in out or "Data race" in out or "Undefined Behavior" in out else "pass"
             res["demo_with_tail"] = out[-400:]
             os.remove(os.path.join(wt, "rarena-allocator", "tests", "seed_demo.rs"))
         res["checks"] = {}
